@@ -79,7 +79,7 @@ def compare_z(r: R, sub, got, zx, scale, what):
         return
     if is_inf(got):
         return r.fail(f'{sub}:infinite', f'{what}: lib {got!r} exact {complex(zx)}')
-    if not tol.close(got, zx, max(abs(complex(zx)), 1e-6 * scale)):
+    if not tol.close(got, zx, max(abs(complex(zx)), 1e-4 * scale)):
         r.fail(sub, f'{what}: lib {got!r} exact {complex(zx)}')
 
 
@@ -290,7 +290,7 @@ def check_sweep(case, r: R):
     if z0 is not None and z0 != 'inf' and cond_ok(net0, n1, n2):
         with r.lib('open_circuit_dc_resistance'):
             got = cimp.open_circuit_dc_resistance(circuit, n1, n2)
-            if isinstance(got, complex) or not tol.close(got, complex(z0).real, max(abs(complex(z0)), 1e-6 * zscale(net0))):
+            if isinstance(got, complex) or not tol.close(got, complex(z0).real, max(abs(complex(z0)), 1e-4 * zscale(net0))):
                 r.fail('dc-resistance', f'{n1!r},{n2!r}: lib {got!r} exact {complex(z0).real}')
 
 
